@@ -29,13 +29,8 @@ CHECKS = {
               "namespace model (cdict), __set_name__ hooks pure.")),
     "C09": dict(
         category="proof", design_ref="DESIGN.md section 8 (C09)",
-        text=("InitMethod.init: the loop over the attributes owned by the class and the finalisation are symbolically executed from the current source "
-              "(loop invariant over the attrs dict, each assignment through the proved contract of the generated __setattr__): a given keyword value is "
-              "stored prepared and protectively copied, otherwise the nearest default (Attr.lookup_default_value), otherwise the attribute stays missing; "
-              "no other slot is written; __post_init__ runs exactly once after the loop (ghost call log); the initializing flag is removed. Discharged by z3."),
-        note=("Phase 1 (routing through parent spec classes' constructors: MRO reflection, arbitrary user-written __init__) is NOT verified - declared cut "
-              "assumption + bounded stand-in over five hierarchies; overflow attribute and generated signature: bounded / C17. One genuine defect in "
-              "phase 1 found by the stand-in was repaired (arguments routed through a parent were not copied).")),
+        text=("InitMethod.init is symbolically executed from the current source in full: phase 1 (nested loops over the ancestors along the MRO and their attributes) hands exactly the attributes owned by an ancestor - protectively copied - to that ancestor's constructor and leaves in the keyword dict what was passed for the attributes the class itself owns; phase 2 (loop invariant over the attrs dict, each assignment through the proved contract of the generated __setattr__) stores a given keyword value prepared and copied, otherwise the nearest default (Attr.lookup_default_value, itself discharged in a sub-check), otherwise leaves the attribute missing, and writes no other slot; phase 3 runs __post_init__ exactly once after the loop (ghost call log) and removes the initializing flag. Discharged by z3."),
+        note=("Assumed: what a parent's constructor does (A-PARENT-CTOR: writes to the instance only), the MRO (A-MRO), metadata shape of the ancestors (A-META); overflow attribute and generated signature: bounded / C17; the stored values of parent-routed attributes: bounded stand-in over five hierarchies. One genuine defect in phase 1 found by the stand-in was repaired (arguments routed through a parent were not copied).")),
     "C18": dict(
         category="proof", design_ref="DESIGN.md section 8 (C18)",
         text=("Alias.__get__/__set__/__delete__ and the three DeprecatedAlias wrappers are symbolically executed from the current source against the "
